@@ -369,6 +369,42 @@ func dirtyPadded(a int8, b int64, c int16, d string) padded {
 	return *p
 }
 
+// pointer-free key shapes with padding that == ignores: trailing padding, blank fields, padding after a pointer.
+type tailPad struct {
+	ID  uint64
+	Tag uint8
+}
+
+type blankPad struct {
+	A uint32
+	_ uint32
+	B uint8
+	_ [3]byte
+	C uint16
+}
+
+type ptrPad struct {
+	P *int
+	T uint8
+}
+
+// dirtyOf builds a T inside a buffer pre-filled with `fill`, so that every byte the field writes of `set` do not
+// cover (padding, blank fields) is garbage; arrays of such structs are copied bytewise by the compiler.
+func dirtyOf[T any](fill byte, set func(*T)) T {
+	var z T
+	buf := make([]byte, unsafe.Sizeof(z)+16)
+	for i := range buf {
+		buf[i] = fill
+	}
+	off := uintptr(0)
+	for (uintptr(unsafe.Pointer(&buf[0]))+off)%8 != 0 {
+		off++
+	}
+	p := (*T)(unsafe.Pointer(&buf[off]))
+	set(p)
+	return *p
+}
+
 func cloneStr(s string) string { return string(append([]byte(nil), s...)) }
 
 var (
@@ -462,6 +498,43 @@ func TestC10(t *testing.T) {
 		runKeyCase(rt, keyType[padded]{name: "paddedstruct", pool: func() []padded {
 			return []padded{{}, dirtyPadded(0, 0, 0, ""), {1, 2, 3, "x"}, dirtyPadded(1, 2, 3, cloneStr("x")), {1, 2, 3, "y"}, dirtyPadded(1, 2, 4, "x"), {-1, -1, -1, ""}, dirtyPadded(-1, -1, -1, "")}
 		}})
+	})
+	run("tailpadarray", func(rt *rapid.T) {
+		mk := func(fill byte, a, b uint64, ta, tb uint8) [2]tailPad {
+			return dirtyOf(fill, func(p *[2]tailPad) { p[0].ID, p[0].Tag, p[1].ID, p[1].Tag = a, ta, b, tb })
+		}
+		runKeyCase(rt, keyType[[2]tailPad]{name: "tailpadarray", pool: func() [][2]tailPad {
+			return [][2]tailPad{{}, mk(0xA5, 0, 0, 0, 0), {{1, 2}, {3, 4}}, mk(0xA5, 1, 3, 2, 4), mk(0x5A, 1, 3, 2, 4), mk(0xFF, 1, 3, 2, 5), mk(0x00, 3, 1, 4, 2), mk(0x77, 3, 1, 4, 2)}
+		}, descr: func(k [2]tailPad) string { return fmt.Sprintf("%v", k) }})
+	})
+	run("tailpadstruct", func(rt *rapid.T) {
+		type wrap struct {
+			H tailPad
+			N [2]tailPad
+		}
+		mk := func(fill byte, a uint64, t uint8) wrap {
+			return dirtyOf(fill, func(p *wrap) { p.H.ID, p.H.Tag, p.N[0].ID, p.N[0].Tag, p.N[1].ID, p.N[1].Tag = a, t, a+1, t, a+2, t+1 })
+		}
+		runKeyCase(rt, keyType[wrap]{name: "tailpadstruct", pool: func() []wrap {
+			return []wrap{{}, mk(0xA5, 0, 0), mk(0x11, 7, 1), mk(0xEE, 7, 1), mk(0x00, 7, 1), mk(0xA5, 7, 2), mk(0xA5, 8, 1)}
+		}, descr: func(k wrap) string { return fmt.Sprintf("%v", k) }})
+	})
+	run("blankfieldarray", func(rt *rapid.T) {
+		mk := func(fill byte, a uint32, b uint8, c uint16) [2]blankPad {
+			return dirtyOf(fill, func(p *[2]blankPad) { p[0].A, p[0].B, p[0].C, p[1].A, p[1].B, p[1].C = a, b, c, a+1, b, c })
+		}
+		runKeyCase(rt, keyType[[2]blankPad]{name: "blankfieldarray", pool: func() [][2]blankPad {
+			return [][2]blankPad{{}, mk(0xA5, 0, 0, 0), mk(0x00, 1, 2, 3), mk(0xC3, 1, 2, 3), mk(0x3C, 1, 2, 3), mk(0xC3, 1, 2, 4), mk(0xC3, 2, 2, 3)}
+		}, descr: func(k [2]blankPad) string { return fmt.Sprintf("{%d %d %d}{%d %d %d}", k[0].A, k[0].B, k[0].C, k[1].A, k[1].B, k[1].C) }})
+	})
+	run("pointerpadarray", func(rt *rapid.T) {
+		mk := func(fill byte, p0, p1 *int, t uint8) [2]ptrPad {
+			return dirtyOf(fill, func(p *[2]ptrPad) { p[0].P, p[0].T, p[1].P, p[1].T = p0, t, p1, t+1 })
+		}
+		runKeyCase(rt, keyType[[2]ptrPad]{name: "pointerpadarray", pool: func() [][2]ptrPad {
+			return [][2]ptrPad{{}, mk(0x00, &cellsI[0], &cellsI[1], 1), mk(0xA5, &cellsI[0], &cellsI[1], 1), mk(0x5A, &cellsI[0], &cellsI[1], 1), mk(0xA5, &cellsI[1], &cellsI[0], 1), mk(0xA5, &cellsI[0], &cellsI[1], 2), mk(0xA5, nil, nil, 0)}
+		}, mutate: func(i int) { cellsI[i%2] += i + 1 },
+			descr: func(k [2]ptrPad) string { return fmt.Sprintf("{%p %d}{%p %d}", k[0].P, k[0].T, k[1].P, k[1].T) }})
 	})
 	run("nestedstruct", func(rt *rapid.T) {
 		runKeyCase(rt, keyType[nested]{name: "nestedstruct", pool: func() []nested {
